@@ -1,8 +1,15 @@
 #!/bin/sh
-# offline setup: nothing to build; verify the tools the checks need are importable
+# offline setup: nothing to build; verify the tools the checks need and machine-check the list lemmas
 set -e
 cd "$(dirname "$0")"
-mkdir -p out/replay evidence
+mkdir -p out/replay out/cache out/tmp evidence
 python3-vt -c "import z3, sys; print('z3', z3.get_version_string())"
 PYTHONPATH=/repo python3-vt -c "import praatio; print('praatio importable under python3-vt')"
+# Lean 4 + Mathlib: the lemmas behind the list rules of pyvc (R-MAP lifts, chain rule, R-ERASE, sorted-sets ...)
+if command -v lean >/dev/null 2>&1; then
+  (cd /tmp && lean "$OLDPWD/lean/Lifting.lean") && echo "lean: Lifting.lean checked" || { echo "lean check FAILED"; exit 1; }
+  if grep -nE "sorry|admit|^axiom" lean/Lifting.lean; then echo "unproved lemma in Lifting.lean"; exit 1; fi
+else
+  echo "lean not found: list lemmas not re-checked (they are part of the trusted base then)"
+fi
 echo setup ok
